@@ -298,6 +298,21 @@ func runC18(r *Runner, g *Gen, tier string) string {
 			}
 		}
 	}
+	// lengths and counts around 2^63 / 2^64 (int conversion and overflow)
+	hugeVals := []uint64{1<<63 - 12, 1<<63 - 1, 1 << 63, 1<<63 + 1, ^uint64(0) - 10, ^uint64(0), 1 << 62, 1<<31 - 1, 1 << 32}
+	for _, hv := range hugeVals {
+		h := refVarint(hv)
+		for _, tail := range [][]byte{nil, {0}, {1, 2, 3}, refVarint(hv)} {
+			r.Do(L(A("skip"), A("2"), A(hx(cat(h, tail)))), true, "skip.huge")
+			for _, count := range []uint64{1, 2, 3} {
+				d := cat(refVarint(count), cat(h, tail))
+				r.Do(L(A("skip"), A("3"), A(hx(d))), true, "skip.huge")
+				d2 := cat(refVarint(count), cat([]byte{1, 0x41}, cat(h, tail)))
+				r.Do(L(A("skip"), A("3"), A(hx(d2))), true, "skip.huge")
+			}
+			r.Do(L(A("skip"), A("3"), A(hx(cat(h, tail)))), true, "skip.huge")
+		}
+	}
 	// Skip over well-formed fields of every wire type (+ trailing data), and every truncation
 	for i := 0; i < scale(tier, 3000, 200000); i++ {
 		wt, field := g.wellFormedField()
